@@ -302,6 +302,8 @@ def shard(ctx):
     fuzz_until = None
     if ctx.tier == "thorough" and ctx.shard == 0:
         fuzz(ctx)
+    if ctx.tier == "thorough" and ctx.shard in (1, 2, 3):
+        memcheck(ctx)
     i = ctx.shard
     n = 0
     while not ctx.out_of_time():
@@ -314,6 +316,37 @@ def shard(ctx):
             fault_cases(ctx, rng, worker, job, rec)
         if n % 40 == 0:
             process_case(ctx, rng)
+
+
+def memcheck(ctx, seconds=300):
+    """valgrind memcheck (thorough tier) over the real binary on the process workload: invalid reads/writes, use of
+    uninitialised values and invalid frees in customasm or its dependencies are reported through exit code 97."""
+    import shutil
+    if not shutil.which("valgrind"):
+        ctx.count("memcheck:valgrind-missing")
+        return
+    t_end = time.time() + seconds
+    k = 0
+    while time.time() < t_end and not ctx.out_of_time():
+        rng = ctx.rng(ctx.shard, "memcheck", k)
+        k += 1
+        w = draw_files(rng)
+        argv, model = C.gen_argv(rng, w["roots"], max_groups=3, validity=rng.random() < 0.9, with_help=False)
+        dirs = ["dir"] if any((g.get("output") or "").startswith("dir/") for g in model["groups"]) else []
+        res = runner.run_cli("valgrind", ["-q", "--error-exitcode=97", "--leak-check=no", ctx.cli("rel")] + argv[1:], dict(w["files"]),
+                             extra_dirs=dirs, cpu_s=120, as_gib=32, wall_s=300)
+        ctx.evaluated()
+        if res["wall_timeout"] or res["signal"] is not None:
+            ctx.count("memcheck:inconclusive-run")
+            continue
+        ctx.monitor("memcheck")
+        if res["status"] == 97 or "== Invalid " in res["stderr"] or "uninitialised" in res["stderr"]:
+            m = re.search(r"==\d+== ([A-Z][^\n]{0,60})", res["stderr"])
+            ctx.violation("memcheck", {"kind": "memcheck-report", "first": re.sub(r"\d+", "N", m.group(1)) if m else "?"},
+                          {"argv": argv, "files": lib.files_json(w["files"]), "mode": "process", "tool": "valgrind"},
+                          "no memcheck report", res["stderr"][-600:])
+        else:
+            ctx.count("memcheck:clean-run")
 
 
 # ------------------------------------------------------------------------------------------
